@@ -2456,6 +2456,11 @@ bool mmd_engine_has_metadata(mmd_engine * e, size_t * end) {
 		temp->table_stack->size = e->table_stack->size;
 
 
+		// Metadata collected by an earlier check would otherwise be listed twice
+		while (e->metadata_stack->size) {
+			meta_free(stack_pop(e->metadata_stack));
+		}
+
 		// Tokenize the string (up until first empty line)
 		doc = mmd_tokenize_string(e, 0, e->dstr->currentStringLength, true);
 
